@@ -25,6 +25,10 @@ type C01Scenario struct {
 	Content   []byte            `json:"content"`
 	Desc      string            `json:"desc"`
 	Net       verifsimnet.Profile `json:"net"`
+	// Stalls: the consumer of the client's stdout pauses (back-pressure reaches the
+	// reader once the queues are full; pauses above 3 s let the periodic
+	// truncation check fire before EOF)
+	Stalls []StallSpec `json:"stalls,omitempty"`
 }
 
 // splitAtMLL is the reference model written from the statement: a newline is
@@ -238,6 +242,23 @@ func c01Gen(r *Rand, tier string, i int) Scenario {
 		max = lim
 	}
 	sc.Content, sc.Desc = genC01Content(r, sc.Cfg.MLL, max)
+	if r.Bool(0.12) {
+		// many short lines (more than the two 100-slot queues hold) and a consumer
+		// that pauses early on: the reader waits behind a full queue, reaches EOF
+		// seconds after it opened the file
+		var out bytes.Buffer
+		nl := PickOf(r, 205, 230, 300, 450, 700)
+		for i := 0; i < nl; i++ {
+			out.Write(genBytes(r, r.Intn(24), 2))
+			if i < nl-1 || r.Bool(0.6) {
+				out.WriteByte('\n')
+			}
+		}
+		sc.Content, sc.Desc = out.Bytes(), "manylines"
+		sc.Stalls = []StallSpec{{Name: "consumer.single", Site: siteStdoutLock, Suffix: "/lock", From: PickOf(r, 0, 1, 5, 20), To: 0,
+			DurMs: PickOf(r, 500, 3100, 3100, 6200, 9500)}}
+		sc.Stalls[0].To = sc.Stalls[0].From + 1
+	}
 	if r.Bool(0.65) {
 		// most runs avoid the two protocol-level known findings so that the
 		// rest of the pipeline is checked without the counterfactual detour
@@ -333,7 +354,7 @@ func c01Run(t *testing.T, s Scenario, src verifsim.DecisionSource, keep bool) *R
 	}
 	var proc *ClientProc
 	var stdout []byte
-	opts := RunOpts{Src: src, KeepLabels: keep, MaxFake: 5 * time.Minute}
+	opts := RunOpts{Src: src, KeepLabels: keep, MaxFake: 5 * time.Minute, Stalls: stallRules(sc.Stalls)}
 	if sc.Transport == "ssh" {
 		np := sc.Net
 		opts.Net = &np
@@ -446,7 +467,11 @@ func diffMsg(exp, got []byte) string {
 
 func c01Shape(s Scenario) string {
 	sc := s.(*C01Scenario)
-	return fmt.Sprintf("%s/plain=%v/mll=%d/%s/%s/len%d", sc.Transport, sc.Plain, sc.Cfg.MLL, sc.Compress, sc.Desc, len(sc.Content))
+	st := ""
+	for _, sp := range sc.Stalls {
+		st += fmt.Sprintf("/stall%d@%d", sp.DurMs, sp.From)
+	}
+	return fmt.Sprintf("%s/plain=%v/mll=%d/%s/%s/len%d%s", sc.Transport, sc.Plain, sc.Cfg.MLL, sc.Compress, sc.Desc, len(sc.Content), st)
 }
 
 func c01Sample(s Scenario) any {
@@ -473,6 +498,9 @@ func c01Shrink(s Scenario) []Scenario {
 	}
 	if sc.Compress != "" {
 		mk(func(n *C01Scenario) { n.Compress = "" })
+	}
+	if len(sc.Stalls) > 0 {
+		mk(func(n *C01Scenario) { n.Stalls = nil })
 	}
 	if sc.Transport == "ssh" {
 		mk(func(n *C01Scenario) { n.Transport = "serverless" })
@@ -573,7 +601,7 @@ func init() {
 		ID:    "C01",
 		Level: "exploration",
 		Rule: "seeded generation of file contents (uniform bytes, line-structured text with lengths around 0/1/MLL/32 KiB/70 KB, protocol-hazard atoms, " +
-			"degenerate files) x MaxLineLength x plain/gzip/zstd x plain/non-plain x serverless/SSH x network chunking/latency x schedule profile; " +
+			"degenerate files, files of 205-700 short lines read against a consumer that pauses 0.5-9.5 s) x MaxLineLength x plain/gzip/zstd x plain/non-plain x serverless/SSH x network chunking/latency x schedule profile; " +
 			"non-trivial = non-empty content; distinct = distinct (scenario shape, schedule hash) pairs",
 		Real: []string{"internal/clients (cat client, handlers, connectors)", "internal/server (SSH world)", "internal/server/handlers", "internal/io/fs",
 			"internal/io/dlog + stdout logger", "golang.org/x/crypto/ssh client+server over simnet", "compress/gzip, DataDog/zstd"},
